@@ -3,6 +3,7 @@
  *
  * Sub-domains (global case index, shard i runs index % n == i):
  *   tbl   every non-empty subset (1023) of a 10-key universe of INTERNAL keys
+ *         x 2 value patterns
  *         x 576 configurations {block_size 64|256|4096} x {restart 1|2|16} x
  *         {none|snappy} x {no filter|bloom 10|bloom 1|bloom 50} x {bytewise|
  *         reverse user comparator} x {mmap 0|1} x {block cache none|8 MiB}: built with
@@ -185,8 +186,14 @@ typedef struct ent_s {
   size_t kn, vn;
 } ent_t;
 
+/* mask bits 0..9 = entry set; bit 10 = value pattern: 0 = mixed kinds chosen by
+ * (key, set), 1 = every value 300 bytes (compressible / incompressible
+ * alternating) so that the larger sets spread over more than one 2 KiB filter
+ * range */
 static int
 value_kind(int i, unsigned mask) {
+  if (mask & 1024u)
+    return 2 + (i & 1);
   return (int)(((unsigned)i + (mask >> 2) + mask) & 3u);
 }
 
@@ -531,18 +538,22 @@ table_domain(void) {
   int c;
   unsigned mask;
   for (c = 0; c < NCFG && !stopped; c++) {
-    for (mask = 1; mask < 1024; mask++) {
+    for (mask = 1; mask < 2048; mask++) {
       uint64_t idx, layout = 0;
       fail_t f, f2;
       char js[120];
+      if ((mask & 1023u) == 0)
+        continue;
       if (!drv.thorough) {
         /* quick: every entry set for the configurations without filter / with bloom 10; for bloom 1 and
          * bloom 50 the sets of size <= 2 or >= 8 plus every 7th other set */
-        int pc = __builtin_popcount(mask);
+        int pc = __builtin_popcount(mask & 1023u);
         cfg_t g;
         decode_cfg(c, &g);
         if (g.filter >= 2 && !(pc <= 2 || pc >= 8 || (mask + (unsigned)c) % 7 == 0))
           continue;
+        if ((mask & 1024u) && !(pc <= 1 || pc >= 8))
+          continue; /* all-large value pattern: only the smallest and the largest sets */
       }
       idx = g_idx++;
       if (!drv_mine(idx))
@@ -557,7 +568,7 @@ table_domain(void) {
         drv_viol(f.sig, f.detail, js);
       }
       drv_set("table_layouts", layout);
-      if (n_tsamples < 3 && __builtin_popcount(mask) >= 6 && (idx % 5) == 0 && c > 20) {
+      if (n_tsamples < 3 && __builtin_popcount(mask & 1023u) >= 6 && (idx % 5) == 0 && c > 20) {
         char sj[500], ct[200];
         cfg_t g;
         n_tsamples++;
@@ -1162,7 +1173,7 @@ replay(const char *js) {
   if (strstr(js, "\"k\":\"tbl\"")) {
     int c = (int)jnum(js, "cfg", 0);
     unsigned m = (unsigned)jnum(js, "mask", 1);
-    if (c < 0 || c >= NCFG || m < 1 || m > 1023)
+    if (c < 0 || c >= NCFG || m > 2047 || (m & 1023u) == 0)
       vh_die("bad replay payload: %s", js);
     bad = run_table(c, m, &f, NULL);
   } else if (strstr(js, "\"k\":\"wit\"")) {
@@ -1249,7 +1260,8 @@ main(int argc, char **argv) {
   } else {
     if (!drv.thorough)
       drv_note("quick tier subsets: tbl = every entry set x the 288 configurations with no filter or bloom 10, and the entry sets "
-               "of size <=2 or >=8 plus every 7th other set x the 288 configurations with bloom 1 or bloom 50; "
+               "of size <=2 or >=8 plus every 7th other set x the 288 configurations with bloom 1 or bloom 50; the second "
+               "value pattern (all values 300 bytes) only for sets of size <=1 or >=8; "
                "sep = full domain; Snappy strings = length <=17 over {a,b} and <=9 over {a,b,c}; Snappy patterns = 12 "
                "patterns x 2 variants x lengths {0..600, within 40 of 2^10..2^16, within 300 of 65536, multiples of 499, "
                "69960..70000}; fixed buffers and the 20000-entry witness table = as thorough");
